@@ -1,4 +1,5 @@
 import Golib.Model.C10Ring
+import Golib.Model.C10Sync
 
 namespace Golib.C10
 open Golib.Proto
@@ -7,6 +8,7 @@ open Golib.Proto
 def runCase (hdr : List String) (ops : List String) : List String :=
   match hdr with
   | "ring" :: rest => runRingCase rest ops
+  | "sync" :: rest => runSyncCase rest ops
   | _ => "bad-op" :: ops.map fun _ => "bad-op"
 
 end Golib.C10
